@@ -472,6 +472,14 @@ private:
         n.write_bytes_be(signum, data);
         std::size_t length = data.size();
 
+        if (pack_strings_ && length >= jsoncons::cbor::detail::min_length_for_stringref(next_stringref_))
+        {
+            // a stringref decoder assigns the next index to this byte string as well
+            byte_string_type bs(data.data(), data.size(), alloc_);
+            bytestringref_map_.emplace(std::make_pair(bs, next_stringref_)); // no effect if already present
+            ++next_stringref_;
+        }
+
         if (is_neg)
         {
             write_tag(3);
